@@ -50,6 +50,110 @@ def dispatch_table(fn):
     return out
 
 
+PERSISTED = "::get_highest_persisted_seqno"
+
+
+def replay_guard(ctx, rule, kinds=("items", "clears"), monotone=False):
+    """journal replay applies a record (item / clear) only if the tree has not persisted it already.
+    items:  a re-applied item sits in a memtable in FRONT of newer table data written without the journal (bulk ingestion)
+            — point reads return the stale value — and undoes what a compaction filter did to the persisted copy (C18);
+    clears: a re-executed clear drops every table of the keyspace, including tables written AFTER the clear without the
+            journal (bulk ingestion after a clear)."""
+    F = ctx.F
+    cg = ctx.cg
+    n = 0
+    for fid in ("db::Database::recover", "recovery::recover_sealed_memtables"):
+        fn = ctx.fn(fid, rule)
+        if not fn:
+            continue
+        og = ctx.og(fn)
+        sites = {"items": [b for b, t in fn.calls() if A.is_call_to(t, R.APPLY_ANY) and A.cname(t).rsplit("::", 1)[-1] in ("insert", "remove", "remove_weak") and A.in_cycle(fn, b)],
+                 "clears": [b for b, t in fn.calls() if A.is_call_to(t, R.APPLY_ANY) and A.cname(t).rsplit("::", 1)[-1] == "clear" and A.in_cycle(fn, b)]}
+
+        def guard_of(ab):
+            """(guarded, table_derived): a dominating in-loop branch whose condition is computed from a persisted seqno of the tree"""
+            for sb, blk in enumerate(fn.blocks):
+                if blk["t"]["k"] != "switch" or blk["cleanup"] or not A.dominates(fn, sb, ab) or not A.in_cycle(fn, sb):
+                    continue
+                cond = og.of_operand(blk["t"]["d"])
+                for x in A.walk(cond):
+                    if x.k != "call":
+                        continue
+                    if x.a[0].endswith(PERSISTED):
+                        return True, True
+                    if x.a[0] in F.fns and _reaches_persisted(ctx, x.a[0]):
+                        return True, True
+            return False, False
+        for kind in kinds:
+            ss = sites[kind]
+            if not ss:
+                ctx.ob(rule, fn, "replay-%s-sites-present" % kind, False, "%s no longer applies journal %s" % (fid, kind), kind="anchor")
+                continue
+            n += len(ss)
+            res = [guard_of(ab) for ab in ss]
+            unguarded = [ab for ab, (g, td) in zip(ss, res) if not g]
+            table_derived = [ab for ab, (g, td) in zip(ss, res) if g and td]
+            refiltered = any("compaction::filter" in A.cname(t) or "CompactionFilter" in A.cname(t) for b, t in fn.calls())
+            ok = not unguarded and not (monotone and table_derived and not refiltered)
+            inst = "replay-skips-records-already-persisted" if kind == "items" else "replayed-clear-spares-newer-tables"
+            if ok:
+                detail = "every replayed %s is applied only if it is newer than what the tree has persisted" % ("record" if kind == "items" else "clear")
+            elif unguarded and kind == "items":
+                detail = "journal replay re-applies records the tree has already persisted (%d apply site(s) with no persisted-seqno guard): a stale copy ends up in a memtable in front of newer table data written without the journal (bulk ingestion over a journaled key: point reads return the old value after a reopen), and an item a compaction filter removed or replaced is back in its original form" % len(unguarded)
+            elif unguarded:
+                detail = "a replayed clear is re-executed unconditionally (tree.clear() drops every table): data bulk-ingested AFTER the clear is not in the journal and is wiped by the next reopen"
+            else:
+                detail = "the replay guard compares against get_highest_persisted_seqno() — the maximum over the CURRENT tables, which the compaction filter itself lowers when it removes the newest persisted item: that item's journal record is replayed again and the item is back in its original form after a reopen (insert a; insert b; flush; major_compact removes b; reopen -> b is back)"
+            ctx.ob(rule, fn, inst, ok, detail, fn.loc((unguarded or table_derived or ss)[0]))
+        # a cached persisted seqno must be forgotten when a replayed clear drops the keyspace's tables: otherwise the records
+        # that follow the clear are still judged "already persisted" and skipped (the tables that vouched for them are gone)
+        if "clears" in kinds and sites["clears"]:
+            cache_fns = set()
+            for sb, blk in enumerate(fn.blocks):
+                if blk["t"]["k"] != "switch" or blk["cleanup"] or not A.in_cycle(fn, sb):
+                    continue
+                for x in A.walk(og.of_operand(blk["t"]["d"])):
+                    if x.k == "call" and x.a[0] in F.fns and _reaches_persisted(ctx, x.a[0]):
+                        hf = F.fns[x.a[0]]
+                        if hf.argc >= 1 and "&mut" in hf.local_ty(1):
+                            cache_fns.add((x.a[0], hf.local_ty(1).replace("&mut ", "").strip()))
+            for helper, cty in sorted(cache_fns):
+                forgetters = [fid2 for fid2, f2 in F.fns.items() if f2.kind != "closure" and f2.argc >= 1 and f2.local_ty(1).replace("&mut ", "").strip() == cty and fid2 != helper
+                              and any(A.cname(t2).rsplit("::", 1)[-1] in ("remove", "clear", "retain", "insert") and "HashMap" in A.cname(t2) for _, t2 in f2.calls())]
+                heads = [bb for bb, tt in fn.calls() if A.cname(tt).endswith("::next") and A.in_cycle(fn, bb)]
+                bad = []
+                for c in sites["clears"]:
+                    fb = [bb for bb, tt in fn.calls() if A.cname(tt) in forgetters]
+                    errs = list(A.error_starts(fn))
+                    r = A.reach(fn, list(fn.succs(c)), avoid=fb + errs)
+                    if any(h in r for h in heads) or any(x in r for x in fn.return_blocks()):
+                        bad.append(c)
+                ctx.ob(rule, fn, "cached-persisted-seqno-forgotten-after-replayed-clear", not bad and bool(forgetters),
+                       "after a replayed clear drops the tables, the cached persisted seqno of that keyspace is dropped too" if (not bad and forgetters)
+                       else "the persisted seqno is cached (%s) and NOT invalidated after a replayed clear executed tree.clear(): the records journaled after the clear are judged already persisted by tables that no longer exist, and are lost" % cty,
+                       fn.loc(bad[0]) if bad else "")
+    ctx.floor(rule, "journal replay apply sites", n, 6 if "items" in kinds and len(kinds) == 1 else 8)
+
+
+def _reaches_persisted(ctx, fid, _seen=None):
+    _seen = _seen or set()
+    if fid in _seen or fid not in ctx.F.fns:
+        return False
+    _seen.add(fid)
+    for f2 in [ctx.F.fns[fid]] + ctx.F.closures_of(fid):
+        for b, t in f2.calls():
+            n = A.cname(t)
+            if n.endswith(PERSISTED):
+                return True
+            if n in ctx.F.fns and _reaches_persisted(ctx, n, _seen):
+                return True
+            for a in t["args"]:
+                cl = A.closure_of_operand(f2, a)
+                if cl and _reaches_persisted(ctx, cl, _seen):
+                    return True
+    return False
+
+
 def run(ctx):
     F = ctx.F
     # ---- R-C04.1 replay sibling agreement
@@ -198,3 +302,12 @@ def run(ctx):
             ok = from_persisted and pol and edges
             detail = "memtable discarded only when persisted seqno >= watermark; otherwise sealed" if ok else "skip polarity wrong: decision from persisted seqno=%s closure is `persisted >= lsn`=%s edges(discard on true, seal on false)=%s" % (from_persisted, pol, edges)
         ctx.ob("R-C04.4", rs, "discard-only-if-persisted-covers-journal", ok, detail)
+
+    # ---- R-C04.6 what reopen replays is still there: a sealed journal is deleted only when every keyspace in it has persisted
+    # past its watermark (shared with C10 / C02: a journal evicted early takes never-flushed keyspaces' content with it)
+    from . import C10
+    C10.deletion_guard(ctx, "R-C04.6")
+
+
+    # ---- R-C04.5 replay applies only what the tree has not persisted yet (items and clears; shared with C18: R-C18.3)
+    replay_guard(ctx, "R-C04.5")
